@@ -51,7 +51,9 @@ Init ==
   /\ nops = 0 /\ op = <<"init">> /\ tainted = FALSE /\ kf = "nobody"
 
 CfgType == IF lastType = "unset" THEN "none" ELSE lastType
-SamplerOf(t) == IF t = "smc" THEN "MiniPCNSMC" ELSE IF t = "importance" THEN "ImportanceSampler" ELSE "none"
+SamplerOf(t) == IF t = "smc" THEN "MiniPCNSMC" ELSE IF t = "emcee_smc" THEN "EmceeSMC"
+                ELSE IF t = "importance" THEN "ImportanceSampler" ELSE "none"
+SamplerTypes == {"importance", "smc", "emcee_smc"}
 
 (* ---- fit(samples, checkpoint_path, overwrite) ----------------------- *)
 Fit(d, usePath, ow) ==
@@ -80,15 +82,19 @@ Sample(kind, usePath, fault) ==
   /\ flow # "none"
   \* a run resumed from a final checkpoint never calls the likelihood: nothing to interrupt
   /\ ~(fault = "early" /\ primed.ck # NoCk /\ primed.ck.final
-        /\ (IF kind = "importance" /\ primed.type # "none" THEN primed.type ELSE kind) = "smc")
+        /\ (IF kind = "importance" /\ primed.type # "none" THEN primed.type ELSE kind) # "importance")
   /\ LET stype == IF kind = "importance" /\ primed.type # "none" THEN primed.type ELSE kind
          resuming == primed.ck # NoCk
-         valid == stype \in {"importance", "smc"}
+         valid == stype \in SamplerTypes
          \* importance sampler has no resume_from parameter
          typeErr == valid /\ stype = "importance" /\ resuming
          path == usePath \/ defaults.on
          save_config == IF usePath THEN TRUE ELSE defaults.save_config
-         supports == stype = "smc"
+         supports == stype # "importance"
+         \* a checkpoint resumed by another sampler class than the one that wrote it (the caller asked
+         \* for it: resume_from_file(..., sampler=...) or an explicit sampler on a primed instance): from
+         \* here on "the sampler that wrote the checkpoint" is not one sampler - outside ConfigNamesWriter
+         mix == resuming /\ path /\ SamplerOf(stype) # primed.ck.sampler
      IN IF ~valid THEN
           /\ op' = <<"sample", kind, usePath, fault, "ValueError">>
           /\ UNCHANGED <<flow, lastType, defaults, ctx, primed, fcfg, fflow, fck, tainted, kf>>
@@ -116,21 +122,23 @@ Sample(kind, usePath, fault) ==
                   \* (a TypeError run re-writes the sampler type it was primed with: the
                   \*  configuration stays as inconsistent as the known finding left it)
                   /\ kf' = IF path /\ save_config /\ ~typeErr THEN "sample" ELSE kf
-                  /\ UNCHANGED <<flow, ctx, primed, tainted>>
+                  /\ tainted' = (tainted \/ mix)
+                  /\ UNCHANGED <<flow, ctx, primed>>
                 ELSE IF stype = "importance" THEN
                   /\ op' = <<"sample", kind, usePath, fault, "ok">>
                   /\ fcfg' = cfg1 /\ fflow' = flow1 /\ fck' = ck0 /\ defaults' = d1
                   /\ kf' = IF path /\ save_config THEN "sample" ELSE kf
-                  /\ UNCHANGED <<flow, ctx, primed, tainted>>
+                  /\ tainted' = (tainted \/ mix)
+                  /\ UNCHANGED <<flow, ctx, primed>>
                 ELSE
                   \* SMC: two iterations, cadence 1.  A fresh run weights under the current proposal;
                   \* a run resumed from a non-final checkpoint re-weights after its first new iteration;
                   \* a run resumed from a final checkpoint returns the population untouched.
                   LET src == primed.ck
                       fromFinal == resuming /\ src.final
-                      midCk == [sampler |-> "MiniPCNSMC", under |-> flow, final |-> FALSE, it |-> 1,
+                      midCk == [sampler |-> SamplerOf(stype), under |-> flow, final |-> FALSE, it |-> 1,
                                 cfgsaved |-> save_config, refit |-> FALSE]
-                      finCk == [sampler |-> "MiniPCNSMC", under |-> IF fromFinal THEN src.under ELSE flow,
+                      finCk == [sampler |-> SamplerOf(stype), under |-> IF fromFinal THEN src.under ELSE flow,
                                 final |-> TRUE, it |-> 2, cfgsaved |-> save_config,
                                 \* ghost for the known finding: untouched population, other proposal
                                 refit |-> (fromFinal /\ src.under # flow)]
@@ -140,7 +148,8 @@ Sample(kind, usePath, fault) ==
                      /\ fcfg' = cfg1 /\ fflow' = flow1 /\ defaults' = d1
                      /\ fck' = IF path THEN (IF fault = "mid" THEN midCk ELSE finCk) ELSE ck0
                      /\ kf' = IF path /\ save_config THEN "sample" ELSE kf
-                     /\ UNCHANGED <<flow, ctx, primed, tainted>>
+                     /\ tainted' = (tainted \/ mix)
+                     /\ UNCHANGED <<flow, ctx, primed>>
 
 (* ---- with aspire.auto_checkpoint(path): ... -------------------------- *)
 EnterAuto(save_config) ==
@@ -157,20 +166,24 @@ ExitAuto ==
   /\ ctx' = SubSeq(ctx, 1, Len(ctx) - 1)
   /\ UNCHANGED <<flow, lastType, primed, fcfg, fflow, fck, tainted, kf>>
 
-(* ---- Aspire.resume_from_file(path) ---------------------------------- *)
+(* ---- Aspire.resume_from_file(path, sampler=ov) ------------------------ *)
+\* ov: the caller may name the sampler to resume with ("none": not given).  The override decides which
+\* sampler the next sample_posterior() uses; it does not change what the rebuilt instance remembers
+\* about the file (its last sampler type is the one recorded in the configuration).
 ClassToType(c) == IF MapClassName /\ c = "MiniPCNSMC" THEN "smc" ELSE c
-ResumeFromFile ==
+ResumeFromFile(ov) ==
   /\ nops < MaxOps /\ nops' = nops + 1
   /\ Len(ctx) = 0
   /\ IF fcfg = NoCfg \/ fflow = "none"
-       THEN /\ op' = <<"resume", "ValueError">>
+       THEN /\ op' = <<"resume", ov, "ValueError">>
             /\ UNCHANGED <<flow, lastType, defaults, ctx, primed, fcfg, fflow, fck, tainted, kf>>
-       ELSE /\ op' = <<"resume", "ok">>
+       ELSE /\ op' = <<"resume", ov, "ok">>
             /\ flow' = fflow
             \* (repair) the rebuilt instance remembers the sampler type recorded in the file
-            /\ lastType' = IF ResumeSavesConfig /\ fcfg \in {"importance", "smc"} THEN fcfg ELSE "unset"
+            /\ lastType' = IF ResumeSavesConfig /\ fcfg \in SamplerTypes THEN fcfg ELSE "unset"
             /\ primed' = IF fck = NoCk THEN [ck |-> NoCk, type |-> "none"]
-                         ELSE [ck |-> fck, type |-> IF fcfg # "none" THEN fcfg ELSE ClassToType(fck.sampler)]
+                         ELSE [ck |-> fck, type |-> IF ov # "none" THEN ov
+                                                    ELSE IF fcfg # "none" THEN fcfg ELSE ClassToType(fck.sampler)]
             /\ defaults' = [on |-> TRUE, save_config |-> ResumeSavesConfig, saved_config |-> FALSE, saved_flow |-> FALSE, perm |-> TRUE]
             /\ ctx' = <<>>
             \* rebuilt from a file that already was inconsistent for one of the excluded reasons
@@ -183,7 +196,8 @@ Next ==
   \/ \E k \in {"importance", "smc"}, p \in BOOLEAN, f \in {"none", "early", "mid"} : Sample(k, p, f)
   \/ \E sc \in BOOLEAN : EnterAuto(sc)
   \/ ExitAuto
-  \/ ResumeFromFile
+  \* the override names a sampler that can resume the stored checkpoint (another SMC class)
+  \/ \E ov \in {"none", "emcee_smc"} : ResumeFromFile(ov)
 
 Spec == Init /\ [][Next]_vars
 
